@@ -113,7 +113,7 @@ def check_instance(rp):
         x = [int(v) for v in X[r]]
         why = "infeasible" if not feasible[r] else "feasible but not optimal"
         problems.append(("oracle/minimiser-not-optimal",
-                         f"x={x} minimises the default-penalty QUBO (value {Fraction(qmin, den)}, penalty weight {Fraction(S) + 1}) but is {why}: "
+                         f"x={x} minimises the default-penalty QUBO (value {Fraction(qmin, den)}; documented default weight S+1 = {Fraction(S) + 1}) but is {why}: "
                          f"|Ax-b|^2={int(res2[r])}, x'Rx={int(xrx[r])}, objective {Fraction(int(obj[r]), den)}; "
                          f"constrained optimum {Fraction(opt, den)}; S={S}, sum|coeff|={coeff}",
                          {"x": x, "qubo_min": str(Fraction(qmin, den)), "optimal_cost": str(Fraction(opt, den)), "S": str(S)}))
@@ -142,13 +142,18 @@ def instance_fails(kind, desc, sig):
 def run(ctx):
     ctx.prove()
     rng = ctx.rng
-    count = 300 if ctx.quick else 4000
+    count = 300 if ctx.quick else 3000
     max_n = 14 if ctx.quick else 18
     stats = {"feasible_instances": 0, "infeasible_instances": 0, "vehicles_added_by_heuristic": 0,
              "negative_costs": 0, "ratio_high_over_cost>=1e5": 0, "ratio_high_over_cost<=1e-2": 0, "ties_in_optimum": 0}
     cases, terms = [], []
     reported, seen = set(), set()
     n_eval = 0
+    for kind0, desc0 in fh.corner_cases():
+        rp0 = fh.BUILDERS[kind0](desc0)
+        for sig, msg, extra in check_instance(rp0)[4]:
+            ctx.violation(f"{sig}/{kind0}/corner", f"{kind0}: {msg}",
+                          dict(fh.describe({"kind": kind0, "desc": desc0, "rp": rp0}), **extra), True)
     for case in fh.gen_objects(rng, count, max_n, stats=stats, mf_prob=0.6):
         rp, kind, desc = case["rp"], case["kind"], case["desc"]
         d, S, out, info, problems = check_instance(rp)
